@@ -601,9 +601,9 @@ pub fn run(ctx: &Ctx) -> Evidence {
     let mut ev = ctx.evidence("C07", "exploration");
     let quirks = ctx.quirks("C07");
     let findings = &ctx.findings;
-    ev.rule = "Core driver. Seeded random histories of 2-4 clients that connect, (re-)register grave goods and last wills (overlapping patterns, keys inside other clients' patterns, `#`, `?/#`, `$SYS/...` targets, own and foreign $SYS entries, CAS-protected targets, unparsable registrations), write, subscribe, open publish streams, lock / queue for locks and end their sessions in every order (for 3- and 4-client set-ups ALL permutations of the disconnect order are run). After every session end: an observer of `#` must have seen exactly the expected burials (any order) followed by the last will sets in order, each once; the user keys (value, kind, version) equal the reference model; the ended client's $SYS subtree is empty; every other client's $SYS subtree is byte-identical; subscription count, publish streams, lock holders and queues (read from the core) and the state of every acquire request equal the model; with extended monitoring on, $SYS/locks names exactly the current holders; at the end the surviving subscriptions still deliver. Non-trivial: a session with parsed grave goods AND last will ended while another client was connected; distinct = distinct histories.".into();
+    ev.rule = "Core driver. Seeded random histories of 2-4 clients that connect, (re-)register grave goods and last wills (overlapping patterns, keys inside other clients' patterns, `#`, `?/#`, `$SYS/...` targets, own and foreign $SYS entries, CAS-protected targets, unparsable registrations), write, subscribe, open publish streams, lock / queue for locks and end their sessions in every order (for 3- and 4-client set-ups ALL permutations of the disconnect order are run). After every session end: an observer of `#` must have seen exactly the expected burials (any order) followed by the last will sets in order, each once; the user keys (value, kind, version) equal the reference model; the ended client's $SYS subtree is empty; every other client's $SYS subtree is byte-identical; subscription count, publish streams, lock holders and queues (read from the core) and the state of every acquire request equal the model; with extended monitoring on, $SYS/locks names exactly the current holders; at the end the surviving subscriptions still deliver. Socket part: sessions of in-process servers (with and without authorization) that registered grave goods, a last will, subscriptions, an ls-subscription and a lock end by clean close, half-written line, garbage, `null`, invalid UTF-8, an unknown message or a refused token; after a later probe session has been cleaned up, the ended session must have been cleaned up too (its $SYS subtree gone, grave goods buried, last will set, lock free). Non-trivial: a session with parsed grave goods AND last will ended while another client was connected; distinct = distinct histories.".into();
     let base = Rng::new(ctx.seed);
-    let histories = ctx.tier.pick(1500usize, 40_000usize);
+    let histories = ctx.tier.pick(30_000usize, 400_000usize);
     let shards = 64usize;
     par_shards(&mut ev, shards, |shard, ev| {
         let runner = Runner::new(false);
@@ -647,7 +647,12 @@ pub fn run(ctx: &Ctx) -> Evidence {
         }
         record(ev, &obs, findings);
     });
+    // ---- socket part: every way a session can end is followed by the clean-up -------------------------
+    let socket_runs = ctx.tier.pick(70usize, 1400usize);
+    let dir = ctx.scratch("c07");
+    super::c07_socket::run_socket_part(&mut ev, ctx.seed, socket_runs, &dir);
     ev.assumptions = vec![
+        "socket part: 'the server has processed the end of the session' is established by a probe session opened and closed afterwards whose own clean-up has been observed".into(),
         "global counters ($SYS/clients, $SYS/subscriptions) are the server's own bookkeeping and are not compared".into(),
         "a registration that does not parse as a list of patterns / of {key,value} objects is ignored as a whole".into(),
         "a last will entry aimed at a key its author may not write (protected $SYS, wildcard, empty) is skipped".into(),
